@@ -33,6 +33,12 @@ void SerialEvent::read(AbstractFile & is) {
 }
 
 void SerialEvent::write(AbstractFile & os) {
+    /* pre processing */
+    if (!(flags & (Flags::SingleByte | Flags::CompactByte))) {
+        general.dataLength = static_cast<uint32_t>(general.data.size());
+        general.timeStampsLength = static_cast<uint32_t>(general.timeStamps.size() * sizeof(int64_t));
+    }
+
     ObjectHeader::write(os);
     os.write(reinterpret_cast<char *>(&flags), sizeof(flags));
     os.write(reinterpret_cast<char *>(&port), sizeof(port));
@@ -61,7 +67,7 @@ uint32_t SerialEvent::calculateObjectSize() const {
         sizeof(reservedSerialEvent) +
         16; // size of union of singleByte/compact/general
 
-    if (flags & ~(Flags::SingleByte | Flags::CompactByte))
+    if (!(flags & (Flags::SingleByte | Flags::CompactByte)))
         size += general.dataLength + general.timeStampsLength;
 
     return size;
